@@ -150,10 +150,27 @@ def _s8(day):
     return zd, day, ["db", "reindex"]
 
 
+def _s9(day):
+    """New ZID-less notes on the SAME day as an earlier run that already handed out ZIDs of
+    that date (they are in the files): the counters in next_ids.json must survive."""
+    files = {
+        "a.zo": "# A\n\n- first note of the day\no second note of the day\n",
+        "b.zo": "# B\n\n- third note of the day\n",
+    }
+    zd = Z.make_zdir(files, "c13b")
+    r = Z.db_create(zd, day)
+    if not Z.cli_ok(r):
+        raise H.HarnessError("S9 setup failed " + r.err[-300:])
+    (zd / "a.zo").write_text((zd / "a.zo").read_text() + "- fourth, added later the same day\n")
+    (zd / "b.zo").write_text((zd / "b.zo").read_text() + "o fifth, added later the same day\n- sixth\n")
+    return zd, day, ["db", "reindex"]
+
+
 SCENARIOS = {"S1-create-new-notes": _s1, "S2-reindex-stamp-new-note-new-page": _s2,
              "S3-reindex-shared-tag": _s3, "S4-create-f-whitelist": _s4,
              "S5-reindex-without-write-back": _s5, "S6-reindex-page-with-properties-and-single-use-tags": _s6,
-             "S7-reindex-renamed-page-and-moved-note": _s7, "S8-reindex-repaired-whitelisted-page": _s8}
+             "S7-reindex-renamed-page-and-moved-note": _s7, "S8-reindex-repaired-whitelisted-page": _s8,
+             "S9-reindex-more-new-notes-on-a-day-that-already-has-zids": _s9}
 
 
 # ---------------------------------------------------------------------------
@@ -420,13 +437,14 @@ def run(ctx: F.Ctx):
         _SC.clear()
     meta = {
         "rule": (
-            "8 scenarios (db create with three ZID-less notes on two pages; db reindex a day later "
+            "9 scenarios (db create with three ZID-less notes on two pages; db reindex a day later "
             "with an edited note, a new note, a new page, a new page in a sub-directory and an untouched page; db reindex with two "
             "changed pages sharing a tag whose other holder dropped it; db create -f with a broken "
             "page; db reindex after changes that need no write-back: a new page whose notes carry "
             "ZIDs, a deleted page, a header-only edit; db reindex of a page whose edited first and last notes surround notes "
             "with properties, single-use tags and a link; db reindex after a page was renamed and a note was cut "
-            "and pasted with its ZID into an earlier-sorted page; db reindex after a whitelisted broken page was repaired). Effects intercepted in program order: Path.write_text, Path.open(w), touch, "
+            "and pasted with its ZID into an earlier-sorted page; db reindex after a whitelisted broken page was repaired; db reindex with more ZID-less notes on the day "
+            "whose ZIDs an earlier run already handed out). Effects intercepted in program order: Path.write_text, Path.open(w), touch, "
             "unlink, rename, Session.commit. For every k in 1..N the command is killed (os._exit) "
             "immediately before effect k, then re-run to completion and judged: exits cleanly, raw "
             "index == recompiled files, every note has a ZID, no ZID on two notes, the multiset of "
